@@ -204,6 +204,7 @@ def _check_site(ctx: Ctx, s: Site) -> None:
     name = s.name if isinstance(s.name, str) else ""
     if re.fullmatch(r"min_ann_\d+", name):
         _check_min_ann(ctx, s)
+        _check_min_ann_interval(ctx, s)
         return
     try:
         env = eval_kernel(ctx.repo, k)
@@ -547,6 +548,112 @@ def _check_min_ann(ctx: Ctx, s: Site) -> None:
            f"param_dims={s.pd}" + ("; " + "; ".join(problems)
                                    if problems else ""),
            construct=f"params partition 0..{s.pd - 1}")
+
+
+def _check_min_ann_interval(ctx: Ctx, s: Site) -> None:
+    """The bracketing scan of a minimising-network controller probes the
+    points X0, X0 + S, X0 + 2S, ... while `X < C` (or `X <= C`); the next
+    probe X + S must not leave the search interval, whose upper end is the
+    constant C of that very test: with X on the lattice X0 + k S the largest
+    X that passes the test decides."""
+    from fractions import Fraction
+    k: FuncInfo = s.kernel
+    repo = ctx.repo
+
+    from sa.srcmodel import inline_locals
+
+    def num(e: ast.AST | None) -> Fraction | None:
+        c = repo.const(k.module, inline_locals(k.node, e)) \
+            if e is not None else None
+        if isinstance(c, bool) or not isinstance(c, (int, float, Fraction)):
+            return None
+        try:
+            return Fraction(str(c)) if isinstance(c, float) else Fraction(c)
+        except (ValueError, ZeroDivisionError):
+            return None
+    n_loops = 0
+    problems: list[str] = []
+    node: ast.AST = k.node
+    flat = [st for st in ast.walk(k.node) if isinstance(st, ast.stmt)]
+    for w in [x for x in ast.walk(k.node) if isinstance(x, ast.While)]:
+        t = w.test
+        if not (isinstance(t, ast.Compare) and len(t.ops) == 1 and isinstance(
+                t.ops[0], (ast.Lt, ast.LtE)) and isinstance(
+                t.left, ast.Name) and num(t.comparators[0]) is not None):
+            continue
+        X, C = t.left.id, num(t.comparators[0])
+        # Y = X + S in the body, X = Y later in the body
+        step = None
+        for st in w.body:
+            if isinstance(st, (ast.Assign, ast.AnnAssign)) and isinstance(
+                    getattr(st, "value", None), ast.BinOp) and isinstance(
+                    st.value.op, ast.Add):
+                l_, r_ = st.value.left, st.value.right
+                for a_, b_ in ((l_, r_), (r_, l_)):
+                    if isinstance(a_, ast.Name) and a_.id == X and num(
+                            b_) is not None and num(b_) > 0:
+                        tg = st.targets[0] if isinstance(
+                            st, ast.Assign) else st.target
+                        if isinstance(tg, ast.Name):
+                            step = (tg.id, num(b_))
+        if step is None:
+            continue
+        Y, S = step
+        def pairs(st: ast.AST) -> list[tuple[ast.expr, ast.expr]]:
+            """(target, value) pairs of an assignment, tuples split."""
+            out = []
+            if isinstance(st, ast.Assign):
+                for t_ in st.targets:
+                    if isinstance(t_, (ast.Tuple, ast.List)) and isinstance(
+                            st.value, (ast.Tuple, ast.List)) and len(
+                            t_.elts) == len(st.value.elts):
+                        out += list(zip(t_.elts, st.value.elts))
+                    else:
+                        out.append((t_, st.value))
+            return out
+        advances = any(isinstance(t_, ast.Name) and t_.id == X
+                       and isinstance(v_, ast.Name) and v_.id == Y
+                       for st in ast.walk(w) for t_, v_ in pairs(st))
+        if not advances:
+            continue
+        # the start of X: the last constant bound to it before the loop
+        x0 = None
+        for st in flat:
+            if getattr(st, "lineno", 0) >= w.lineno:
+                continue
+            if isinstance(st, ast.Assign) and any(
+                    isinstance(t_, ast.Name) and t_.id == X
+                    for t_ in st.targets) and num(st.value) is not None:
+                x0 = num(st.value)
+            elif isinstance(st, ast.AnnAssign) and isinstance(
+                    st.target, ast.Name) and st.target.id == X and num(
+                    st.value) is not None:
+                x0 = num(st.value)
+        if x0 is None:
+            continue
+        n_loops += 1
+        # largest lattice point X0 + k S that passes the test
+        strict = isinstance(t.ops[0], ast.Lt)
+        if x0 > C or (strict and x0 == C):
+            continue
+        kmax = (C - x0) // S
+        if strict and x0 + kmax * S == C:
+            kmax -= 1
+        top = x0 + kmax * S + S
+        if top > C:
+            node = w
+            problems.append(
+                f"`while {ast.unparse(t)}`: `{X}` runs over {float(x0):g}, "
+                f"{float(x0 + S):g}, ... and the last probe `{Y} = {X} + "
+                f"{float(S):g}` is {float(top):g}, outside the search "
+                f"interval that ends at {float(C):g}")
+    ctx.ob("D16.3", k, node, not problems and n_loops >= 1,
+           f"the bracketing scan of {s.name} probes only points inside its "
+           "search interval" if not problems and n_loops >= 1 else
+           ("; ".join(problems) if problems else
+            "bracketing scan not recognised (no `while x < C: y = x + step; "
+            "...; x = y` with constant start, step and end)"),
+           construct="bracket probes inside the interval")
 
 
 # --------------------------------------------------------------------- D16.5
